@@ -70,6 +70,16 @@ impl<T> DrainAll<T> for std::collections::VecDeque<T> {
   { unimplemented!() }
 }
 
+// SmallVec API that `Vec` (its stand-in by R10) lacks: whether the inline storage has spilled to the heap is
+// an implementation detail — unspecified here (either answer is possible)
+pub trait SmallVecApi {
+  fn spilled(&self) -> bool;
+}
+impl<T> SmallVecApi for Vec<T> {
+  #[verifier::external_body]
+  fn spilled(&self) -> (r: bool) { unimplemented!() }
+}
+
 // ---- notifications ----------------------------------------------------------------------------
 pub enum Ev<Item, Err> { Next(Item), Error(Err), Complete }
 
@@ -177,6 +187,19 @@ impl<T> MutRc<T> {
   { &mut self.0 }
   pub fn rc_deref(&self) -> (r: &T) ensures *r == self.0 { &self.0 }
   pub fn own(t: T) -> (r: Self) ensures r.0 == t { MutRc(t, Ghost(arbitrary())) }
+  // non-blocking acquisition (RefCell::try_borrow_mut / Mutex::try_lock): may FAIL for reasons outside the
+  // model (the cell is borrowed / locked elsewhere) — declared so that code that starts using it still types
+  #[verifier::external_body]
+  pub fn try_rc_deref_mut(&mut self) -> (r: Option<&mut T>)
+    ensures
+      r is Some ==> *(r->0) == old(self).0 && *final(r->0) == final(self).0,
+      r is None ==> final(self).0 == old(self).0,
+      final(self).1 == old(self).1,
+  { unimplemented!() }
+  #[verifier::external_body]
+  pub fn try_rc_deref(&self) -> (r: Option<&T>)
+    ensures r is Some ==> *(r->0) == self.0,
+  { unimplemented!() }
 }
 impl<T> MutArc<T> {
   pub fn rc_deref_mut(&mut self) -> (r: &mut T)
@@ -184,6 +207,19 @@ impl<T> MutArc<T> {
   { &mut self.0 }
   pub fn rc_deref(&self) -> (r: &T) ensures *r == self.0 { &self.0 }
   pub fn own(t: T) -> (r: Self) ensures r.0 == t { MutArc(t, Ghost(arbitrary())) }
+  // non-blocking acquisition (RefCell::try_borrow_mut / Mutex::try_lock): may FAIL for reasons outside the
+  // model (the cell is borrowed / locked elsewhere) — declared so that code that starts using it still types
+  #[verifier::external_body]
+  pub fn try_rc_deref_mut(&mut self) -> (r: Option<&mut T>)
+    ensures
+      r is Some ==> *(r->0) == old(self).0 && *final(r->0) == final(self).0,
+      r is None ==> final(self).0 == old(self).0,
+      final(self).1 == old(self).1,
+  { unimplemented!() }
+  #[verifier::external_body]
+  pub fn try_rc_deref(&self) -> (r: Option<&T>)
+    ensures r is Some ==> *(r->0) == self.0,
+  { unimplemented!() }
 }
 
 // ---- handle-world observer --------------------------------------------------------------------
